@@ -181,6 +181,15 @@ Definition pass_counted (st : state) : pass_result := pass (targets_by_count (so
 (* ---------- the recursion, with an arbitrary step [reorder] between passes
    (sympy rebuilding / re-ordering the Mul) ---------- *)
 Inductive outcome := OutOfFuel | Zero | Done (st : state).
+(* [isinstance(expr, Mul)]: sympy returns the single object for a product of
+   one object with coefficient 1 and a number for an empty product; the
+   recursive call then returns its argument unchanged *)
+Definition is_mul (st : state) : bool :=
+  match sobjs st with
+  | [] => false
+  | [_] => negb (Qeq_bool (scoef st) 1)
+  | _ => true
+  end.
 Fixpoint eval_deltas (fuel : nat) (reorder : state -> state) (tg : list index) (st : state) : outcome :=
   match fuel with
   | O => OutOfFuel
@@ -188,7 +197,11 @@ Fixpoint eval_deltas (fuel : nat) (reorder : state -> state) (tg : list index) (
     let r := pass tg st in
     match pr_state r with
     | None => Zero
-    | Some st' => if pr_recurse r then eval_deltas f reorder tg (reorder st') else Done st'
+    | Some st' =>
+      if pr_recurse r then
+        let st'' := reorder st' in
+        if is_mul st'' then eval_deltas f reorder tg st'' else Done st''
+      else Done st'
     end
   end.
 
@@ -249,9 +262,9 @@ Definition check_step (st : state) (tg : option (list index)) (next : option sta
    match tg_next with Some l => same_set l tgl | None => true end).
 
 (* the expression finally returned: every delta left is stuck *)
-Definition check_terminal (st : state) (tg : option (list index)) (final : option state) : bool :=
+Definition check_terminal (st : state) (tg : option (list index)) (final : option state) : bool * bool :=
   let tgl := match tg with Some l => l | None => targets_by_count (sobjs st) end in
-  match final with None => true | Some f => terminalb tgl f end.
+  match final with None => (true, false) | Some f => (terminalb tgl f, is_mul f) end.
 
 (* the tables as lists over the whole domain, for the exhaustive comparison
    with the running implementation *)
@@ -285,3 +298,45 @@ Definition coveredb (tgs : list index) (os : list obj) : bool :=
 Definition check_hyps (st : state) (tg : option (list index)) : bool * bool :=
   let tgs := match tg with Some l => l | None => einstein_targets (sobjs st) end in
   (wf_objsb (sobjs st), coveredb tgs (sobjs st)).
+
+(* ---------- a certificate for a whole observed call tree ---------- *)
+(* delta_ij * delta_ij = delta_ij: sympy keeps one copy *)
+Definition obj_eqb (a b : obj) : bool := atom_eqb (fst a) (fst b) && Z.eqb (snd a) (snd b).
+Fixpoint dd_objs (os : list obj) : list obj :=
+  match os with
+  | [] => []
+  | o :: r => let r' := dd_objs r in
+              match is_delta o with
+              | Some _ => if existsb (obj_eqb o) r' then r' else o :: r'
+              | None => o :: r' end
+  end.
+Definition dd_term (st : state) : term := Term (scoef st) (objs_facs (dd_objs (sobjs st))).
+(* same normal form (Core.Equiv.term_key: sorted contracted indices, canonical
+   factors, signed coefficient) after removing duplicate deltas *)
+Definition same_val (tgs : list index) (a b : option state) : bool :=
+  match a, b with
+  | None, None => true
+  | Some x, Some y =>
+    let (kx, qx) := term_key tgs (dd_term x) in
+    let (ky, qy) := term_key tgs (dd_term y) in
+    key_eqb kx ky && Qeq_bool qx qy
+  | _, _ => false
+  end.
+Definition inclb (a b : list index) : bool := forallb (fun x => imem x b) a.
+(* [obs]: the expressions the implementation produced after each loop body
+   (arguments of the next recursive call, finally the result) *)
+Fixpoint check_trace (tgp tgs : list index) (st : state) (obs : list (option state)) : bool :=
+  match obs with
+  | [] => false
+  | o :: rest =>
+    let res := pass tgp st in
+    wf_objsb (sobjs st) && coveredb tgs (sobjs st) && same_val tgs (pr_state res) o &&
+    match rest with
+    | [] => true
+    | _ => match o with Some s => pr_recurse res && check_trace tgp tgs s rest | None => false end
+    end
+  end.
+Definition check_trace_top (st : state) (tg : option (list index)) (obs : list (option state)) : bool :=
+  let tgp := match tg with Some l => l | None => targets_by_count (sobjs st) end in
+  let tgs := match tg with Some l => l | None => einstein_targets (sobjs st) end in
+  inclb tgs tgp && check_trace tgp tgs st obs.
